@@ -71,12 +71,17 @@ func (g *aspGen) callFunc(f *afunc, d int) ex {
 	return e
 }
 
+func (g *aspGen) alias(v *avar) {
+	v.aliased = true
+	v.amarks++
+}
+
 // markAliased records that the object an expression evaluates to (if it is a plain variable) now has
 // another reference.
 func (g *aspGen) markAliased(e ex) {
 	for _, v := range g.vars {
 		if v.name == e.s {
-			v.aliased = true
+			g.alias(v)
 		}
 	}
 }
